@@ -151,6 +151,22 @@ def calls (o : RecOpt) (r : Rec) (vals : List Nat) : List Call :=
   | .freqs => callsFreqs r.currentTf 0 vals
   | .positions => callsPositions vals.length 0 vals
 
+/-! ### the `doc_id_map` branch (index sorting): remap the doc ids, then sort by the new id -/
+
+/-- insertion into a list sorted by doc id (`sort_unstable_by_key(|(doc, ..)| doc)`; the keys of a
+term's documents are distinct, so the result does not depend on the sorting algorithm) -/
+def insertCall (c : Call) : List Call → List Call
+  | [] => [c]
+  | a :: r => if c.doc ≤ a.doc then c :: a :: r else a :: insertCall c r
+
+def sortCalls (l : List Call) : List Call := l.foldr insertCall []
+
+/-- `Recorder::serialize(.., Some(doc_id_map), ..)`: the stream is decoded in the old id space
+(deltas accumulated there), every doc id is mapped with `get_new_doc_id`, the entries are sorted by
+the new id and handed to the serializer -/
+def callsRemapped (o : RecOpt) (r : Rec) (vals : List Nat) (newId : Nat → Nat) : List Call :=
+  sortCalls ((calls o r vals).map (fun c => { c with doc := newId c.doc }))
+
 /-! ### `serialize_one_term` → bytes, and reading them back -/
 
 structure TermBytes where
@@ -169,6 +185,10 @@ def serializeCalls (o : RecOpt) (cs : List Call) : TermBytes :=
 def serializeTerm (o : RecOpt) (r : Rec) : TermBytes :=
   let bytes := logBytes r
   serializeCalls o (calls o r (readVals bytes.length bytes))
+
+def serializeTermRemapped (o : RecOpt) (r : Rec) (newId : Nat → Nat) : TermBytes :=
+  let bytes := logBytes r
+  serializeCalls o (callsRemapped o r (readVals bytes.length bytes) newId)
 
 /-- positions of the documents, read at `Σ tf` offsets -/
 def readPositions (bytes : List Nat) : Nat → List Nat → Option (List (List Nat))
